@@ -99,6 +99,7 @@ func (r *validationResponseHandler) HandleValidationResponse(
 		if !blocked && r.siep.CanStaleOnError(ctx.Freshness, ccStored, ctx.CCReq) {
 			// RFC 9111 §4.2.4 Serving Stale Responses
 			// RFC 9111 §4.3.3 Handling Validation Responses (5xx errors)
+			StripNoCacheFields(ctx.Stored.Data.Header, ccStored)
 			SetAgeHeader(ctx.Stored.Data, r.clock, ctx.Freshness.Age)
 			CacheStatusStale.ApplyTo(ctx.Stored.Data.Header)
 			r.l.LogCacheStaleIfError(req, ctx.URLKey, ctx.ToMisc(ccStored))
